@@ -9,11 +9,11 @@
   (input, answer) pairs in position-set semantics; the same predicate is evaluated on the answers of the real library
   by the check.  `ans` turns a result into the observable answer (`some v` / `none` = raised).
 
-  One corner of the current code deviates from the property and is recorded as a finding; the theorems exclude exactly
-  those inputs and a `decide`d witness shows that the modelled code deviates there:
-    * `EmptyArgQuirk a b ms`   (F-C02c)  receiver without parent, EmptyLocation argument, match_strand=True
-  F-C19j (one-sided parent test of `union` / `union_preserve_overlaps`) is repaired in the code (`fix:` 7aedbe9); the
-  union theorems hold without exclusion and `union_oneSided_refused` keeps the old failing input as a regression fact.
+  Both corners on which the code used to deviate from the property are repaired in /repo and the theorems hold
+  without exclusions; the old failing inputs are kept as regression facts:
+    * F-C02c (`fix:` d8ea142)  receiver without parent, EmptyLocation argument, match_strand=True used to raise
+      EmptyLocationException from has_overlap / intersection / contains / minus  — `emptyArg_regression`
+    * F-C19j (`fix:` 7aedbe9)  one-sided parent test of `union` / `union_preserve_overlaps` — `union_oneSided_refused`
 -/
 import BioCantor.Proofs.AlgOverlap
 import BioCantor.Proofs.AlgIntersect
@@ -30,24 +30,26 @@ open BioCantor BioCantor.Spec BioCantor.Model BioCantor.Proofs
 /-- T1: `has_overlap` ⇔ some position is covered by both operands (by both full spans with `full_span`), `False`
     for incompatible parents and — under `match_strand` — different strands; `strict_parent_compare` turns
     incompatible parents into a refusal. All layouts (self-overlapping included). -/
-theorem overlap_spec (a b : PLoc) (ha : WFP a) (hb : WFP b) (ms fs strict : Bool) (hq : ¬ EmptyArgQuirk a b ms) :
+theorem overlap_spec (a b : PLoc) (ha : WFP a) (hb : WFP b) (ms fs strict : Bool) :
     okOverlap a b ms fs strict (ans (hasOverlapP a b ms fs strict)) = true :=
-  hasOverlapP_ok a b ha hb ms fs strict hq
+  hasOverlapP_ok a b ha hb ms fs strict
 
-/-- F-C02c witness: on the excluded corner the modelled code raises although the property demands `False`. -/
-theorem overlap_emptyArg_deviates :
-    okOverlap (.single (0, 5) .plus, []) (.empty, []) true false false
-      (ans (hasOverlapP (.single (0, 5) .plus, []) (.empty, []) true false false)) = false := by
-  decide
+/-- F-C02c regression: with a parent-less receiver, an EmptyLocation argument and `match_strand=True` the code used to
+    raise EmptyLocationException; the repaired code answers `False` / `EmptyLocation` / `False` / the receiver. -/
+theorem emptyArg_regression :
+    ans (hasOverlapP (.single (0, 5) .plus, []) (.empty, []) true false false) = some false ∧
+    ans (intersectionP (.single (0, 5) .plus, []) (.empty, []) true false false) = some (.empty, []) ∧
+    ans (containsP (.compound ⟨[(0, 3), (7, 9)], .plus⟩, []) (.empty, []) true true false) = some false ∧
+    ans (minusP (.single (0, 5) .plus, []) (.empty, []) true false) = some (.single (0, 5) .plus, []) :=
+  ⟨rfl, rfl, rfl, rfl⟩
 
 /-- T2: the intersection covers exactly the positions common to both operands (common to both full spans with
     `full_span`), is on the receiver's strand, well formed, inside the parent's sequence, has the receiver's parent
     (up to "equal except location"), and has no empty block; incompatible parents and — under `match_strand` —
     different strands give `EmptyLocation`; `strict_parent_compare` refuses incompatible parents. All layouts. -/
-theorem intersection_spec (a b : PLoc) (ha : WFP a) (hb : WFP b) (ms fs strict : Bool)
-    (hq : ¬ EmptyArgQuirk a b ms) :
+theorem intersection_spec (a b : PLoc) (ha : WFP a) (hb : WFP b) (ms fs strict : Bool) :
     okIntersection a b ms fs strict (ans (intersectionP a b ms fs strict)) = true :=
-  intersectionP_ok a b ha hb ms fs strict hq
+  intersectionP_ok a b ha hb ms fs strict
 
 /-- T2 (normal form): for operands that are not self-overlapping, and for the span variant, no block of the
     intersection ends where the next one begins. -/
@@ -72,16 +74,16 @@ theorem optimizeAndCombine_spec (a : PLoc) (ha : WFP a) :
     on the strand and parent of `a`, well formed, inside the parent's sequence; `a` may be any layout. For a
     self-overlapping subtrahend (outside the property's claim) the call may refuse, and whatever it returns is well
     formed. -/
-theorem minus_spec (a b : PLoc) (ha : WFP a) (hb : WFP b) (ms strict : Bool) (hq : ¬ EmptyArgQuirk a b ms) :
+theorem minus_spec (a b : PLoc) (ha : WFP a) (hb : WFP b) (ms strict : Bool) :
     okMinus a b ms strict (ans (minusP a b ms strict)) = true :=
-  minusP_ok a b ha hb ms strict hq
+  minusP_ok a b ha hb ms strict
 
 /-- T5: for operands that are not self-overlapping (for every layout in the span variant) `a.contains(b)` ⇔ `b` has a
     position and every position of `b` is a position of `a` (of the full spans with `full_span`), gated by strand and
     parents; outside that domain (the code counts with multiplicity) the call still answers a boolean. -/
-theorem contains_spec (a b : PLoc) (ha : WFP a) (hb : WFP b) (ms fs strict : Bool) (hq : ¬ EmptyArgQuirk a b ms) :
+theorem contains_spec (a b : PLoc) (ha : WFP a) (hb : WFP b) (ms fs strict : Bool) :
     okContains a b ms fs strict (ans (containsP a b ms fs strict)) = true :=
-  containsP_ok a b ha hb ms fs strict hq
+  containsP_ok a b ha hb ms fs strict
 
 /-- T6: `gaps_location` covers exactly the uncovered positions between the first and the last non-empty block
     (`EmptyLocation` when there is none); an unstranded multi-block location is refused. -/
@@ -170,6 +172,5 @@ theorem shift_spec (a : PLoc) (ha : WFP a) (k : Int) : okShift a k (ans (shiftP 
 -- parent with sequence and a grand-parent
 example : WFP (.compound ⟨[(0, 5), (2, 3), (5, 7), (5, 5)], .minus⟩,
     [(some "chrA", none, some ['A', 'C', 'G', 'T', 'A', 'C', 'G']), (some "g1", none, none)]) := by decide
-example : ¬ EmptyArgQuirk (.single (0, 5) .plus, [(some "chrA", none, none)]) (.empty, []) true := by decide
 
 end BioCantor.Props.C02
